@@ -3,7 +3,7 @@
    LR/Automaton_proofs.v about the models LR/Driver.v (ParserState.feed_token) and
    LR/Automaton.v (lalr_analysis.py). *)
 From Coq Require Import List Arith Bool ZArith.
-From LV Require Import Cfg.Grammar LR.Driver LR.Driver_proofs LR.Automaton LR.Automaton_proofs LR.Automaton_wf.
+From LV Require Import Cfg.Grammar LR.Driver LR.Driver_proofs LR.Automaton LR.Automaton_proofs LR.Automaton_wf LR.Automaton_la.
 Import ListNotations.
 
 (* "accepts only sentences", for EVERY table in which a reduce by r is only offered in states
@@ -98,6 +98,19 @@ Theorem C02_conflict_iff (rules : list rule) (prio : list Z) (roots : list nat) 
   end.
 Proof. exact (conflict_iff rules prio roots tEND fuel). Qed.
 Print Assumptions C02_conflict_iff.
+
+(* la_closure: the model's Read sets are the LEAST solution of  Read x = DR x U U{Read y | x reads y},
+   its Follow sets the least solution of  Follow x = Read x U U{Follow y | x includes y}
+   (least_solution = solves the equations and lies below every other solution), and the
+   look-ahead triples are exactly the unions of Follow over lookback. *)
+Theorem C02_la_closure (rules : list rule) (roots : list nat) (tEND : nat) (A : lr0) :
+  let rel := compute_relations rules roots tEND A in
+  least_solution (r_nts rel) (r_reads rel) (r_dr rel) (read_sets rel) /\
+  least_solution (r_nts rel) (r_includes rel) (read_sets rel) (follow_sets rel) /\
+  forall q s r, In (q, s, r) (la_triples rel) <->
+                exists i, i < length (r_nts rel) /\ In (q, r) (nth i (r_lookback rel) []) /\ M (follow_sets rel) i s.
+Proof. exact (la_closure rules roots tEND A). Qed.
+Print Assumptions C02_la_closure.
 
 (* For EVERY grammar: whenever the model of lalr_analysis.py builds a table (no collision,
    any number of shift/reduce or priority-resolved reduce/reduce conflicts), that table with
